@@ -320,3 +320,53 @@ func DBModelS1C() model.DatabaseModel {
 	}
 	return dbm
 }
+
+// SchemaS5: two non-root tables (references into the wrong table, C04).
+const SchemaS5 = `{"name":"V","version":"1.0.0","tables":{
+ "Root":{"isRoot":true,"columns":{
+   "name":{"type":"string"},
+   "mids":{"type":{"key":{"type":"uuid","refTable":"Mid","refType":"strong"},"min":0,"max":"unlimited"}},
+   "wleaves":{"type":{"key":{"type":"uuid","refTable":"Leaf","refType":"weak"},"min":0,"max":"unlimited"}}
+ }},
+ "Mid":{"columns":{
+   "name":{"type":"string"},
+   "leaves":{"type":{"key":{"type":"uuid","refTable":"Leaf","refType":"strong"},"min":0,"max":"unlimited"}}
+ }},
+ "Leaf":{"columns":{
+   "name":{"type":"string"}
+ }}}}`
+
+type Root5 struct {
+	UUID    string   `ovsdb:"_uuid"`
+	Name    string   `ovsdb:"name"`
+	Mids    []string `ovsdb:"mids"`
+	WLeaves []string `ovsdb:"wleaves"`
+}
+
+type Mid5 struct {
+	UUID   string   `ovsdb:"_uuid"`
+	Name   string   `ovsdb:"name"`
+	Leaves []string `ovsdb:"leaves"`
+}
+
+type Leaf5 struct {
+	UUID string `ovsdb:"_uuid"`
+	Name string `ovsdb:"name"`
+}
+
+// Row UUIDs of SchemaS5.
+const (
+	M1 = "b1b1b1b1-1111-4111-8111-111111111111"
+	M2 = "b2b2b2b2-2222-4222-8222-222222222222"
+	F1 = "f1f1f1f1-1111-4111-8111-111111111111"
+	F2 = "f2f2f2f2-2222-4222-8222-222222222222"
+)
+
+// ClientModelS5 returns the client model for SchemaS5.
+func ClientModelS5() model.ClientDBModel {
+	cm, err := model.NewClientDBModel("V", map[string]model.Model{"Root": &Root5{}, "Mid": &Mid5{}, "Leaf": &Leaf5{}})
+	if err != nil {
+		panic("fix: " + err.Error())
+	}
+	return cm
+}
